@@ -148,11 +148,21 @@ func mwOf(id int) types.Middleware[*H] {
 	})
 }
 
+// mwsOf builds the middleware list the way callers that collect middlewares with append do: the slice
+// has spare capacity (an implementation that appends to its argument in place would alias it), and one
+// shared backing array is reused for consecutive calls with the same ids.
+var mwCache = map[string][]types.Middleware[*H]{}
+
 func mwsOf(ids []int) []types.Middleware[*H] {
-	out := make([]types.Middleware[*H], len(ids))
+	key := fmt.Sprint(ids)
+	if s, ok := mwCache[key]; ok && len(ids) > 0 {
+		return s
+	}
+	out := make([]types.Middleware[*H], len(ids), len(ids)+8)
 	for i, id := range ids {
 		out[i] = mwOf(id)
 	}
+	mwCache[key] = out
 	return out
 }
 
